@@ -5,7 +5,8 @@ Spec:   MockAtomic.tla (requirement: raised => content unchanged, per operation
         family), MockAtomicImpl.tla (check/write pipelines transcribed from the
         code, explored by TLC for every operation x scenario; legacy
         configurations without batch rollback / with the namespace provider's
-        early write must fail), MockAtomicTrace.tla; plus the Atomic.* clause
+        early write without cleanup / with a snapshot of the target namespace
+        only must fail), MockAtomicTrace.tla; plus the Atomic.* clause
         of RepoCore.tla on the C10 instance histories.
 Binding: seeded histories of valid and rejected calls of every family (single
         objects rejected for every reason, MOF/object batches whose k-th
@@ -62,25 +63,40 @@ def run(ctx):
             label="check/write pipelines of all families x scenarios "
             "(batch rollback, namespace provider checks first)")
     sens = []
-    for cfg, what in (("MockAtomicImplLegacyBatch.cfg",
-                       "write-through batches without rollback"),
-                      ("MockAtomicImplLegacyNs.cfg",
-                       "CIM_Namespace CreateInstance adds namespace before "
-                       "key check"),
-                      ("MockAtomicImplLegacyMultiNs.cfg",
-                       "multi-namespace create checks each namespace only "
-                       "right before writing it"),
-                      ("MockAtomicImplLegacyIo.cfg",
-                       "compile rolls back on MOF errors only, not on the "
-                       "I/O error of a missing include"),
-                      ("MockAtomicImplLegacySchemaList.cfg",
-                       "compile_schema_classes without a snapshot around "
-                       "the list of schema pragma files")):
+    batch_ops = ("batch", "batchio", "batchns", "schemalist")
+    for cfg, what, ops in (
+            ("MockAtomicImplLegacyBatch.cfg",
+             "write-through batches without rollback", batch_ops),
+            ("MockAtomicImplLegacyNs.cfg",
+             "CIM_Namespace CreateInstance adds namespace before key check "
+             "and never removes it", ("CreateNamespaceInstance",)),
+            ("MockAtomicImplLegacyNsKeysFirst.cfg",
+             "CIM_Namespace CreateInstance checks the keys up front instead "
+             "of removing the added namespace when the default provider "
+             "rejects (duplicate instance of a namespace that does not exist)",
+             ("CreateNamespaceInstance",)),
+            ("MockAtomicImplLegacyMultiNs.cfg",
+             "multi-namespace create checks each namespace only right "
+             "before writing it", ("CreateInstanceMultiNs",)),
+            ("MockAtomicImplLegacyIo.cfg",
+             "compile rolls back on MOF errors only, not on the I/O error "
+             "of a missing include", ("batchio",)),
+            ("MockAtomicImplLegacySchemaList.cfg",
+             "compile_schema_classes without a snapshot around the list of "
+             "schema pragma files", ("schemalist",)),
+            ("MockAtomicImplLegacyNsScope.cfg",
+             "batch snapshot covers only the target namespace; productions "
+             "write into another namespace / create a namespace",
+             ("batchns",))):
         r = ctx.tlc("MockAtomicImpl", cfg, must_pass=False, count=False,
                     label="regression config: " + what)
         if r.violated != "Atomic":
             raise vlib.MachineryError("%s did not violate Atomic: %s" %
                                       (cfg, r.violated))
+        if not any('op |-> "%s"' % o in r.out for o in ops):
+            raise vlib.MachineryError(
+                "%s violates Atomic, but not in the pipeline of %s" %
+                (cfg, "/".join(ops)))
         sens.append("%s violates Atomic as required (%s)" % (cfg, what))
     ctx.extra["sensitivity"] = sens
     ntr = 150 if quick else 3000
